@@ -40,7 +40,7 @@ type detCase struct {
 	Ops    []opgen.Op     `json:"ops"`
 }
 
-var detPart = pbt.Part[detCase]{Name: "plan-determinism", Quick: 1200, Thorough: 24000, Check: checkDet,
+var detPart = pbt.Part[detCase]{Name: "plan-determinism", Journal: true, Quick: 1200, Thorough: 24000, Check: checkDet,
 	Gen: func(t *rapid.T) detCase {
 		l := fedgen.Gen(t, fedgen.Options{Allow: allowFromEnv()})
 		super, err := sim.LoadSuper(l.Super)
@@ -149,7 +149,7 @@ type transCase struct {
 	Steps  []step         `json:"steps"`
 }
 
-var transPart = pbt.Part[transCase]{Name: "cache-and-options-transparency", Quick: 2000, Thorough: 24000, Check: checkTrans,
+var transPart = pbt.Part[transCase]{Name: "cache-and-options-transparency", Journal: true, Quick: 2000, Thorough: 24000, Check: checkTrans,
 	Gen: func(t *rapid.T) transCase {
 		l := fedgen.Gen(t, fedgen.Options{Allow: allowFromEnv()})
 		super, err := sim.LoadSuper(l.Super)
